@@ -1,6 +1,7 @@
 """C08 — the C engine stays within its buffers and executes no undefined behaviour."""
 import itertools
 import json
+import os
 import random
 
 import z3
@@ -21,11 +22,12 @@ FUNCTIONS = ['dtw_distance, dtw_distance_euclidean, dtw_distance_ndim, dtw_dista
              'dtw_best_path_isclose', 'dtw_warping_path(_ndim)', 'lb_keogh(_euclidean), ub_euclidean*, euclidean_distance*',
              'dtw_distances_length, dtw_distances_ptrs/_matrix/_ndim_ptrs/_ndim_matrix/_matrices/_ndim_matrices', 'dtw_dba_ptrs, dtw_dba_matrix',
              'dtw_warping_paths_affinity(_ndim), dtw_expand_wps_affinity, dtw_expand_wps_slice_affinity, dtw_wps_max, dtw_best_path_affinity, '
-             'dtw_wps_negativize/positivize(_value), dtw_wps_loc(_columns)']
+             'dtw_wps_negativize/positivize(_value), dtw_wps_loc(_columns), dtw_wps_parts']
 BOUNDS = {'quick': {'l1,l2': '1..4 (data dependent control: l1*l2 <= 9)', 'window': '0..max+1', 'psi': 'core 4-tuples + seeded slice, entries <= length',
-                    'ndim': '1..2', 'inner_dist': '0,1', 'blocks': 'all, n <= 4', 'dba': 'n <= 3, t <= 3'},
+                    'ndim': '1..2', 'inner_dist': '0,1', 'blocks': 'all, n <= 4', 'dba': '2 series, t and lengths 1..3, windows 0..2, psi 0/1, ndim 1..2, plus (t=5, lengths 5,3) and (t=4, lengths 2,5) with windows 1..2',
+                    'affinity': 'l1,l2 1..3 all windows, only_triu both, plus 5x5, 5x6, 6x4 with windows 2..3', 'wps helpers': 'l1,l2 1..3 all windows; 5x5, 4x6, 6x3 (concrete data) windows 1..3; row/column ranges incl. row 0'},
           'thorough': {'l1,l2': '1..5 (data dependent control: l1*l2 <= 12)', 'window': '0..max+1', 'psi': 'all 4-tuples <= min(length,3)',
-                       'ndim': '1..3', 'inner_dist': '0,1', 'blocks': 'all, n <= 5', 'dba': 'n <= 3, t <= 4'}}
+                       'ndim': '1..3', 'inner_dist': '0,1', 'blocks': 'all, n <= 5', 'dba': 'as quick with t and lengths 1..4, plus (t=6, lengths 6,4), (t=3, lengths 6,2)', 'affinity': 'l1,l2 1..4', 'wps helpers': 'l1,l2 1..4'}}
 OUTSIDE = ['allocation failure (malloc never returns NULL in the model)', 'idx_t overflow for huge sizes', '*_prob and printing routines',
            'reads of uninitialised caller output buffers (they are modelled as zero filled)', 'the Cython layer']
 ASSUMPTIONS = ['caller buffers have exactly the documented size', 'clang -O0+mem2reg IR = source semantics', 'doubles as reals: NaN/overflow not modelled']
@@ -90,6 +92,29 @@ def tasks(tier, seed):
         for fn in ('dtw_distances_ptrs', 'dtw_distances_matrix', 'dtw_distances_ndim_ptrs', 'dtw_distances_ndim_matrix',
                    'dtw_distances_matrices', 'dtw_distances_ndim_matrices'):
             ts.append({'harness': 'distances', 'fam': 'distances', 'fn': fn, 'n': nser, 'est': nser ** 4})
+    # DBA: averaging buffer of length t against collections of series of different lengths
+    tmax = 3 if tier == 'quick' else 4
+    for t_ in range(1, tmax + 1):
+        for la in range(1, tmax + 1):
+            for lb in range(1, la + 1):
+                ts.append({'harness': 'dba', 'fam': 'dba', 't': t_, 'lens': [la, lb], 'est': t_ * (la + lb) * 15})
+    ts.append({'harness': 'dba', 'fam': 'dba', 't': 5, 'lens': [5, 3], 'wide': True, 'est': 400})
+    ts.append({'harness': 'dba', 'fam': 'dba', 't': 4, 'lens': [2, 5], 'wide': True, 'est': 300})
+    if tier == 'thorough':
+        ts.append({'harness': 'dba', 'fam': 'dba', 't': 6, 'lens': [6, 4], 'wide': True, 'est': 600})
+        ts.append({'harness': 'dba', 'fam': 'dba', 't': 3, 'lens': [6, 2], 'wide': True, 'est': 600})
+    # affinity (local concurrences) kernels
+    amax = 3 if tier == 'quick' else 4
+    for l1 in range(1, amax + 1):
+        for l2 in range(1, amax + 1):
+            ts.append({'harness': 'affinity', 'fam': 'affinity', 'l1': l1, 'l2': l2, 'est': l1 * l2 * 40})
+    for l1, l2 in ((5, 5), (5, 6), (6, 4)):
+        ts.append({'harness': 'affinity', 'fam': 'affinity', 'l1': l1, 'l2': l2, 'wide': True, 'est': 500})
+    for l1 in range(1, amax + 1):
+        for l2 in range(1, amax + 1):
+            ts.append({'harness': 'wps-helpers', 'fam': 'wpshelp', 'l1': l1, 'l2': l2, 'est': l1 * l2 * 30})
+    for l1, l2 in ((5, 5), (4, 6), (6, 3)):
+        ts.append({'harness': 'wps-helpers', 'fam': 'wpshelp', 'l1': l1, 'l2': l2, 'wide': True, 'est': 400})
     for t in ts:
         t['tier'], t['seed'] = tier, seed
     ts.sort(key=lambda t: -t['est'])
@@ -131,7 +156,7 @@ def _explore(irmod, sp, stats, meta, st, max_paths=1500, hook=None):
             stats.unsat += 1
             continue
         if isinstance(p.exc, irsym.Violation):
-            key = (meta['harness'], p.exc.kind)
+            key = (meta['harness'], p.exc.kind) + ((json.dumps(meta.get('opts'), sort_keys=True),) if os.environ.get('VERIF_ALLCEX') else ())
             st['count'][key] = st['count'].get(key, 0) + 1
             stats.sat += 1
             if st['count'][key] > 3:
@@ -266,6 +291,98 @@ def run_task(cfg):
     elif fam == 'distances':
         n, fn = cfg['n'], cfg['fn']
         sample = _distances(irmod, fn, n, stats, st, tier)
+    elif fam == 'dba':
+        t_, lens = cfg['t'], cfg['lens']
+        wide = cfg.get('wide')
+        n = len(lens)
+        wins = (1, 2) if wide else (0, 1, 2)
+        for w in wins:
+            for psi in ((0, 0, 0, 0),) if wide else ((0, 0, 0, 0), (1, 1, 1, 1)):
+                for ndim in (1,) if (wide or max(lens) > 2) else (1, 2):
+                    for fn in ('dtw_dba_ptrs', 'dtw_dba_matrix'):
+                        if fn == 'dtw_dba_matrix' and len(set(lens)) > 1:
+                            continue
+                        for mask in ([3], [2]) if not wide else ([3],):
+                            sett = _settings({'window': w, 'psi': psi, 'pen': not wide}, 0)
+                            bufs = []
+                            cbuf = ['c', 'double_rw', [{'sym': 'c%d' % i} for i in range(t_ * ndim)]]
+                            if fn == 'dtw_dba_ptrs':
+                                for k in range(n):
+                                    bufs.append(['ser%d' % k, 'double', [{'sym': 's%d_%d' % (k, i)} for i in range(lens[k] * ndim)]])
+                                bufs += [['ptrs', 'ptrs', ['ser%d' % k for k in range(n)]], ['lens', 'idx', list(lens)], cbuf, ['mask', 'u8', mask]]
+                                call = [fn, ['ptrs', n, 'lens', 'c', t_, 'mask', 0, ndim, 'settings'], 'void']
+                            else:
+                                bufs += [['mat', 'double', [{'sym': 's%d_%d' % (k, i)} for k in range(n) for i in range(lens[0] * ndim)]], cbuf, ['mask', 'u8', mask]]
+                                call = [fn, ['mat', n, lens[0], 'c', t_, 'mask', 0, ndim, 'settings'], 'void']
+                            sp = {'settings': sett, 'bufs': bufs, 'calls': [call]}
+                            meta = {'harness': 'dba', 'fn': fn, 't': t_, 'lens': lens, 'ndim': ndim, 'opts': {'window': w, 'psi': list(psi), 'mask': mask}}
+                            _explore(irmod, sp, stats, meta, st, max_paths=300)
+                            if sample is None:
+                                sample = {'harness': 'dba', 'fn': fn, 't': t_, 'lens': lens, 'window': w, 'buffers': {b[0]: (b[2] if isinstance(b[2], int) else len(b[2])) for b in bufs}}
+    elif fam == 'affinity':
+        l1, l2 = cfg['l1'], cfg['l2']
+        wide = cfg.get('wide')
+        wins = (2, 3) if wide else tuple(range(0, max(l1, l2) + 2))
+        for w in wins:
+            if 'F18-c-clamped-width' in active_regions('C18') and False:
+                continue
+            for tri in (False, True):
+                for pen in (False, True):
+                    if wide and (tri or not pen):
+                        continue
+                    sett = _settings({'window': w, 'psi': (0, 0, 0, 0), 'pen': pen}, 0)
+                    conc = {k: (1.0 if isinstance(v, dict) else v) for k, v in sett.items()}
+                    length, width = ckern.wps_dims(irmod, l1, l2, conc)
+                    bufs = [['s1', 'double', _series('a', l1, 1)], ['s2', 'double', _series('b', l2, 1)], ['wps', 'double', length]]
+                    kcall = ['dtw_warping_paths_affinity', ['wps', 's1', l1, 's2', l2, True, False, False, tri, {'sym': 'g_gamma'}, {'sym': 'T'}, {'sym': 'D'}, 0.5, 'settings'], 'double']
+                    variants = [('expand', bufs + [['full', 'double', (l1 + 1) * (l2 + 1)]], [kcall, ['dtw_expand_wps_affinity', ['wps', 'full', l1, l2, 'settings'], 'void']])]
+                    if not wide and l1 * l2 <= 6:
+                        idxb = [['i1', 'idx', l1 + l2], ['i2', 'idx', l1 + l2]]
+                        for (rs, cs_) in ((l1, l2), (1, 1), (l1, 1)):
+                            variants.append(('best_path_affinity', bufs + idxb, [kcall, ['dtw_best_path_affinity', ['wps', 'i1', 'i2', l1, l2, rs, cs_, 'settings'], 'idx']]))
+                    for vn, vb, vc in variants:
+                        sp = {'settings': sett, 'bufs': vb, 'calls': vc}
+                        meta = {'harness': 'affinity', 'l1': l1, 'l2': l2, 'variant': vn, 'opts': {'window': w, 'only_triu': tri, 'pen': pen}}
+                        _explore(irmod, sp, stats, meta, st, max_paths=400)
+                    if sample is None:
+                        sample = {'harness': 'affinity', 'l1': l1, 'l2': l2, 'window': w, 'calls': [c[0] for c in vc], 'wps elements': length}
+    elif fam == 'wpshelp':
+        l1, l2 = cfg['l1'], cfg['l2']
+        wide = cfg.get('wide')
+        wins = (1, 2, 3) if wide else tuple(range(0, max(l1, l2) + 2))
+        for w in wins:
+            sett = _settings({'window': w, 'psi': (0, 0, 0, 0), 'pen': False}, 0)
+            conc = {k: (1.0 if isinstance(v, dict) else v) for k, v in sett.items()}
+            length, width = ckern.wps_dims(irmod, l1, l2, conc)
+            if wide:    # index arithmetic only: concrete data keeps dtw_wps_max on one path
+                sa, sb_ = [rnd.choice((0.0, 0.5, 1.0, 2.0)) for _ in range(l1)], [rnd.choice((0.0, 0.5, 1.0, 2.0)) for _ in range(l2)]
+                tau, delta = 0.3, -0.2
+            else:
+                sa, sb_, tau, delta = _series('a', l1, 1), _series('b', l2, 1), {'sym': 'T'}, {'sym': 'D'}
+            bufs = [['s1', 'double', sa], ['s2', 'double', sb_], ['wps', 'double', length], ['p', 'parts', [l1, l2]],
+                    ['ro', 'idx', 1], ['co', 'idx', 1]]
+            calls = [['dtw_warping_paths_affinity', ['wps', 's1', l1, 's2', l2, True, False, False, False, 1.0, tau, delta, 0.5, 'settings'], 'double'],
+                     ['dtw_wps_max', ['p', 'wps', 'ro', 'co', l1, l2], 'idx']]
+            for r_ in range(0, l1 + 1):
+                calls.append(['dtw_wps_loc_columns', ['p', r_, 'ro', 'co', l1, l2], 'idx'])
+                for c_ in range(0, l2 + 1):
+                    calls.append(['dtw_wps_loc', ['p', r_, c_, l1, l2], 'idx'])
+                    if r_ >= 1 and c_ >= 1:
+                        calls.append(['dtw_wps_negativize_value', ['p', 'wps', l1, l2, r_, c_], 'bool'])
+                        calls.append(['dtw_wps_positivize_value', ['p', 'wps', l1, l2, r_, c_], 'bool'])
+            ranges = [(rb, re_, cb, ce) for rb in range(0, l1 + 1) for re_ in range(rb + 1, l1 + 2) for cb in range(0, l2 + 1) for ce in range(cb + 1, l2 + 2)]
+            rnd.shuffle(ranges)
+            ranges = [(0, l1 + 1, 0, l2 + 1), (1, l1 + 1, 1, l2 + 1)] + ranges[:(40 if wide else 12)]
+            for (rb, re_, cb, ce) in ranges:
+                for inter in (True, False):
+                    calls.append(['dtw_wps_negativize', ['p', 'wps', l1, l2, rb, re_, cb, ce, inter], 'void'])
+                    calls.append(['dtw_wps_positivize', ['p', 'wps', l1, l2, rb, re_, cb, ce, inter], 'void'])
+            calls.append(['dtw_wps_max', ['p', 'wps', 'ro', 'co', l1, l2], 'idx'])
+            sp = {'settings': sett, 'bufs': bufs, 'calls': calls}
+            meta = {'harness': 'wps-helpers', 'l1': l1, 'l2': l2, 'opts': {'window': w}}
+            _explore(irmod, sp, stats, meta, st, max_paths=300)
+            if sample is None:
+                sample = {'harness': 'wps-helpers', 'l1': l1, 'l2': l2, 'window': w, 'calls': sorted(set(c[0] for c in calls)), 'wps elements': length}
     return {'stats': stats.as_dict(), 'cex': st['cex'], 'inconclusive': st['incon'], 'sample': sample, 'truncated': st['trunc'],
             'unsupported': st.get('unsupported')}
 
